@@ -185,6 +185,46 @@ theorem C17_mknod_perm_bits (mode : Nat) : mode ^^^ (mode &&& S_IFMT) = clearBit
   simp [Nat.testBit_xor, Nat.testBit_and]
   cases mode.testBit i <;> cases S_IFMT.testBit i <;> rfl
 
+/-- the type field is gone from what is handed on: `(mode ^ (mode & S_IFMT)) & S_IFMT = 0`,
+so the permission argument can never smuggle a second file type to the kernel -/
+theorem C17_mknod_perms_no_type (mode : Nat) : (mode ^^^ (mode &&& S_IFMT)) &&& S_IFMT = 0 := by
+  apply Nat.eq_of_testBit_eq
+  intro i
+  simp only [Nat.testBit_xor, Nat.testBit_and, Nat.zero_testBit]
+  cases mode.testBit i <;> cases S_IFMT.testBit i <;> rfl
+
+/-- the decoding is exhaustive and exact: `mknodType` succeeds precisely for the five
+creatable types, and then with that type, the stripped permission bits and the
+caller's device number -/
+theorem C17_mknod_decoding (mode dev : Nat) :
+    mknodType mode dev =
+      let perms := mode ^^^ (mode &&& S_IFMT)
+      if mode &&& S_IFMT = S_IFREG then .ok (.file perms)
+      else if mode &&& S_IFMT = S_IFDIR then .ok (.directory perms)
+      else if mode &&& S_IFMT = S_IFBLK then .ok (.blockDev perms dev)
+      else if mode &&& S_IFMT = S_IFCHR then .ok (.charDev perms dev)
+      else if mode &&& S_IFMT = S_IFIFO then .ok (.fifo perms)
+      else if mode &&& S_IFMT = S_IFSOCK then .error .notImplemented
+      else .error .invalidArgument := rfl
+
+/-- success happens only for those five values of the type field -/
+theorem C17_mknod_ok_only (mode dev : Nat) (ty : InodeType) (h : mknodType mode dev = .ok ty) :
+    mode &&& S_IFMT ∈ [S_IFREG, S_IFDIR, S_IFBLK, S_IFCHR, S_IFIFO] := by
+  unfold mknodType at h
+  simp only [List.mem_cons, List.mem_nil_iff, or_false]
+  by_cases h1 : mode &&& S_IFMT = S_IFREG
+  · exact Or.inl h1
+  by_cases h2 : mode &&& S_IFMT = S_IFDIR
+  · exact Or.inr (Or.inl h2)
+  by_cases h3 : mode &&& S_IFMT = S_IFBLK
+  · exact Or.inr (Or.inr (Or.inl h3))
+  by_cases h4 : mode &&& S_IFMT = S_IFCHR
+  · exact Or.inr (Or.inr (Or.inr (Or.inl h4)))
+  by_cases h5 : mode &&& S_IFMT = S_IFIFO
+  · exact Or.inr (Or.inr (Or.inr (Or.inr h5)))
+  simp only [h1, h2, h3, h4, h5, ↓reduceIte] at h
+  split at h <;> cases h
+
 /-! ## Non-vacuity -/
 
 example : (copyPathIntoBuffer b!"abcdef" (some [1, 2, 3, 4]) 4) = (6, some b!"abcd") := by decide
